@@ -58,6 +58,10 @@
 (*                by the inline population: in the batch path the panic    *)
 (*                aborts the zip, so every later element of the group is   *)
 (*                lost although its entity was returned.                   *)
+(*   FixBadReq    in the batch path a required value that does not         *)
+(*                unmarshal (wrong JSON type, null for a non-null field)   *)
+(*                makes resolveManyEntities `return err` out of the zip:   *)
+(*                every later element of the group is lost as well.        *)
 (* With all Fix* = TRUE TLC proves Correct for every list, outcome and     *)
 (* schedule in the bound; with FALSE it proves CorrectModuloKnown (nothing *)
 (* but the named deviations) and yields counterexamples to Correct.        *)
@@ -78,7 +82,7 @@ CONSTANTS
   MaxFaults,      \* at most this many non-"ent"/non-"ok" outcomes per scenario
   ReqInline,      \* TRUE: @requires populated inline by resolveEntity (default options);
                   \* FALSE: explicit_requires (nil-safe user populator) / computed_requires
-  FixFirstRep, FixShort, FixNilReq
+  FixFirstRep, FixShort, FixNilReq, FixBadReq
 
 VARIABLES
   reps,   \* sequence of kind names            (chosen in Init, constant afterwards)
@@ -100,11 +104,20 @@ view == <<reps, out, bout, pc, gst, gq, gres, gz, est, list, errs, recs>>
 
 -----------------------------------------------------------------------------
 \* The probe schema.
-Types == {"S", "K", "N", "M", "R", "Rm"}
+Types == {"S", "K", "N", "M", "R", "Rm", "R2", "Rm2", "R3", "Rm3"}
 AllT == Types \cup {"Zz"}              \* "Zz": a typename the schema does not know
-Multi(t) == t \in {"M", "Rm"}          \* @entityResolver(multi: true)
-HasReq(t) == t \in {"R", "Rm"}         \* has a @requires field
-BatchRes == {"findManyMByIDs", "findManyMByAlts", "findManyRmByIDs"}
+Multi(t) == t \in {"M", "Rm", "Rm2", "Rm3"}          \* @entityResolver(multi: true)
+\* the fields a type's @requires field needs, in SDL order (nn: non-null type):
+\* w: String, n: Int!, l: [String!]
+ReqW == [f |-> "w", nn |-> FALSE]
+ReqN == [f |-> "n", nn |-> TRUE]
+ReqL == [f |-> "l", nn |-> FALSE]
+Req(t) == CASE t \in {"R", "Rm"} -> <<ReqW>>
+            [] t \in {"R2", "Rm2"} -> <<ReqW, ReqN>>
+            [] t \in {"R3", "Rm3"} -> <<ReqW, ReqN, ReqL>>
+            [] OTHER -> << >>
+HasReq(t) == Req(t) # << >>
+BatchRes == {"findManyMByIDs", "findManyMByAlts", "findManyRmByIDs", "findManyRm2ByIDs", "findManyRm3ByIDs"}
 
 \* entity resolvers in declaration order (= order of the @key directives), with their key fields;
 \* nn: the key fields are non-null types (unmarshalling a missing / null value FAILS for those,
@@ -116,32 +129,86 @@ Res(t) ==
     [] t = "M"  -> << [n |-> "findManyMByIDs", f |-> {"id"}, nn |-> TRUE], [n |-> "findManyMByAlts", f |-> {"alt"}, nn |-> FALSE] >>
     [] t = "R"  -> << [n |-> "findRByID", f |-> {"id"}, nn |-> TRUE] >>
     [] t = "Rm" -> << [n |-> "findManyRmByIDs", f |-> {"id"}, nn |-> TRUE] >>
+    [] t = "R2" -> << [n |-> "findR2ByID", f |-> {"id"}, nn |-> TRUE] >>
+    [] t = "Rm2" -> << [n |-> "findManyRm2ByIDs", f |-> {"id"}, nn |-> TRUE] >>
+    [] t = "R3" -> << [n |-> "findR3ByID", f |-> {"id"}, nn |-> TRUE] >>
+    [] t = "Rm3" -> << [n |-> "findManyRm3ByIDs", f |-> {"id"}, nn |-> TRUE] >>
     [] OTHER    -> << >>
 
 \* Representation kinds: t = __typename ("" = missing / not a string), k = status of key fields
-\* ("v" a value, "null", "bad" = the parent of a nested key is not an object; absent = not in DOMAIN k).
+\* ("v" a value, "null", "bad" = the parent of a nested key is not an object; absent = not in DOMAIN k),
+\* q = status of every field a @requires needs ("v" a well-formed value, "bad" a value of the wrong
+\* JSON type, "null" an explicit null, "absent"). "<T>:<j><s>": the j-th required field of type T
+\* is bad / null / absent, everything else well-formed.
 Kind(name) ==
-  CASE name = "S"      -> [t |-> "S",  k |-> [id |-> "v"]]
-    [] name = "Smiss"  -> [t |-> "S",  k |-> << >>]
-    [] name = "Snull"  -> [t |-> "S",  k |-> [id |-> "null"]]
-    [] name = "Ka"     -> [t |-> "K",  k |-> [a |-> "v"]]
-    [] name = "Kbc"    -> [t |-> "K",  k |-> [b |-> "v", c |-> "v"]]
-    [] name = "Kboth"  -> [t |-> "K",  k |-> [a |-> "v", b |-> "v", c |-> "v"]]
-    [] name = "Kanull" -> [t |-> "K",  k |-> [a |-> "null", b |-> "v", c |-> "v"]]
-    [] name = "Kb"     -> [t |-> "K",  k |-> [b |-> "v"]]
-    [] name = "N"      -> [t |-> "N",  k |-> ("o.id" :> "v")]
-    [] name = "Nbad"   -> [t |-> "N",  k |-> ("o.id" :> "bad")]
-    [] name = "Nmiss"  -> [t |-> "N",  k |-> << >>]
-    [] name = "Mid"    -> [t |-> "M",  k |-> [id |-> "v"]]
-    [] name = "Malt"   -> [t |-> "M",  k |-> [alt |-> "v"]]
-    [] name = "Mmiss"  -> [t |-> "M",  k |-> << >>]
-    [] name = "R"      -> [t |-> "R",  k |-> [id |-> "v"]]
-    [] name = "Rm"     -> [t |-> "Rm", k |-> [id |-> "v"]]
-    [] name = "Rmnull" -> [t |-> "Rm", k |-> [id |-> "null"]]
-    [] name = "U"      -> [t |-> "Zz", k |-> [id |-> "v"]]
-    [] name = "T0"     -> [t |-> "",   k |-> [id |-> "v"]]
-AllKinds == {"S", "Smiss", "Snull", "Ka", "Kbc", "Kboth", "Kanull", "Kb", "N", "Nbad", "Nmiss",
-             "Mid", "Malt", "Mmiss", "R", "Rm", "Rmnull", "U", "T0"}
+  CASE name = "S" -> [t |-> "S", k |-> [id |-> "v"], q |-> << >>]
+    [] name = "Smiss" -> [t |-> "S", k |-> << >>, q |-> << >>]
+    [] name = "Snull" -> [t |-> "S", k |-> [id |-> "null"], q |-> << >>]
+    [] name = "Ka" -> [t |-> "K", k |-> [a |-> "v"], q |-> << >>]
+    [] name = "Kbc" -> [t |-> "K", k |-> [b |-> "v", c |-> "v"], q |-> << >>]
+    [] name = "Kboth" -> [t |-> "K", k |-> [a |-> "v", b |-> "v", c |-> "v"], q |-> << >>]
+    [] name = "Kanull" -> [t |-> "K", k |-> [a |-> "null", b |-> "v", c |-> "v"], q |-> << >>]
+    [] name = "Kb" -> [t |-> "K", k |-> [b |-> "v"], q |-> << >>]
+    [] name = "N" -> [t |-> "N", k |-> ("o.id" :> "v"), q |-> << >>]
+    [] name = "Nbad" -> [t |-> "N", k |-> ("o.id" :> "bad"), q |-> << >>]
+    [] name = "Nmiss" -> [t |-> "N", k |-> << >>, q |-> << >>]
+    [] name = "Mid" -> [t |-> "M", k |-> [id |-> "v"], q |-> << >>]
+    [] name = "Malt" -> [t |-> "M", k |-> [alt |-> "v"], q |-> << >>]
+    [] name = "Mmiss" -> [t |-> "M", k |-> << >>, q |-> << >>]
+    [] name = "U" -> [t |-> "Zz", k |-> [id |-> "v"], q |-> << >>]
+    [] name = "T0" -> [t |-> "", k |-> [id |-> "v"], q |-> << >>]
+    [] name = "R" -> [t |-> "R", k |-> [id |-> "v"], q |-> [w |-> "v"]]
+    [] name = "R:1b" -> [t |-> "R", k |-> [id |-> "v"], q |-> [w |-> "bad"]]
+    [] name = "R:1n" -> [t |-> "R", k |-> [id |-> "v"], q |-> [w |-> "null"]]
+    [] name = "R:1a" -> [t |-> "R", k |-> [id |-> "v"], q |-> [w |-> "absent"]]
+    [] name = "Rm" -> [t |-> "Rm", k |-> [id |-> "v"], q |-> [w |-> "v"]]
+    [] name = "Rm:1b" -> [t |-> "Rm", k |-> [id |-> "v"], q |-> [w |-> "bad"]]
+    [] name = "Rm:1n" -> [t |-> "Rm", k |-> [id |-> "v"], q |-> [w |-> "null"]]
+    [] name = "Rm:1a" -> [t |-> "Rm", k |-> [id |-> "v"], q |-> [w |-> "absent"]]
+    [] name = "R2" -> [t |-> "R2", k |-> [id |-> "v"], q |-> [w |-> "v", n |-> "v"]]
+    [] name = "R2:1b" -> [t |-> "R2", k |-> [id |-> "v"], q |-> [w |-> "bad", n |-> "v"]]
+    [] name = "R2:1n" -> [t |-> "R2", k |-> [id |-> "v"], q |-> [w |-> "null", n |-> "v"]]
+    [] name = "R2:1a" -> [t |-> "R2", k |-> [id |-> "v"], q |-> [w |-> "absent", n |-> "v"]]
+    [] name = "R2:2b" -> [t |-> "R2", k |-> [id |-> "v"], q |-> [w |-> "v", n |-> "bad"]]
+    [] name = "R2:2n" -> [t |-> "R2", k |-> [id |-> "v"], q |-> [w |-> "v", n |-> "null"]]
+    [] name = "R2:2a" -> [t |-> "R2", k |-> [id |-> "v"], q |-> [w |-> "v", n |-> "absent"]]
+    [] name = "Rm2" -> [t |-> "Rm2", k |-> [id |-> "v"], q |-> [w |-> "v", n |-> "v"]]
+    [] name = "Rm2:1b" -> [t |-> "Rm2", k |-> [id |-> "v"], q |-> [w |-> "bad", n |-> "v"]]
+    [] name = "Rm2:1n" -> [t |-> "Rm2", k |-> [id |-> "v"], q |-> [w |-> "null", n |-> "v"]]
+    [] name = "Rm2:1a" -> [t |-> "Rm2", k |-> [id |-> "v"], q |-> [w |-> "absent", n |-> "v"]]
+    [] name = "Rm2:2b" -> [t |-> "Rm2", k |-> [id |-> "v"], q |-> [w |-> "v", n |-> "bad"]]
+    [] name = "Rm2:2n" -> [t |-> "Rm2", k |-> [id |-> "v"], q |-> [w |-> "v", n |-> "null"]]
+    [] name = "Rm2:2a" -> [t |-> "Rm2", k |-> [id |-> "v"], q |-> [w |-> "v", n |-> "absent"]]
+    [] name = "R3" -> [t |-> "R3", k |-> [id |-> "v"], q |-> [w |-> "v", n |-> "v", l |-> "v"]]
+    [] name = "R3:1b" -> [t |-> "R3", k |-> [id |-> "v"], q |-> [w |-> "bad", n |-> "v", l |-> "v"]]
+    [] name = "R3:1n" -> [t |-> "R3", k |-> [id |-> "v"], q |-> [w |-> "null", n |-> "v", l |-> "v"]]
+    [] name = "R3:1a" -> [t |-> "R3", k |-> [id |-> "v"], q |-> [w |-> "absent", n |-> "v", l |-> "v"]]
+    [] name = "R3:2b" -> [t |-> "R3", k |-> [id |-> "v"], q |-> [w |-> "v", n |-> "bad", l |-> "v"]]
+    [] name = "R3:2n" -> [t |-> "R3", k |-> [id |-> "v"], q |-> [w |-> "v", n |-> "null", l |-> "v"]]
+    [] name = "R3:2a" -> [t |-> "R3", k |-> [id |-> "v"], q |-> [w |-> "v", n |-> "absent", l |-> "v"]]
+    [] name = "R3:3b" -> [t |-> "R3", k |-> [id |-> "v"], q |-> [w |-> "v", n |-> "v", l |-> "bad"]]
+    [] name = "R3:3n" -> [t |-> "R3", k |-> [id |-> "v"], q |-> [w |-> "v", n |-> "v", l |-> "null"]]
+    [] name = "R3:3a" -> [t |-> "R3", k |-> [id |-> "v"], q |-> [w |-> "v", n |-> "v", l |-> "absent"]]
+    [] name = "Rm3" -> [t |-> "Rm3", k |-> [id |-> "v"], q |-> [w |-> "v", n |-> "v", l |-> "v"]]
+    [] name = "Rm3:1b" -> [t |-> "Rm3", k |-> [id |-> "v"], q |-> [w |-> "bad", n |-> "v", l |-> "v"]]
+    [] name = "Rm3:1n" -> [t |-> "Rm3", k |-> [id |-> "v"], q |-> [w |-> "null", n |-> "v", l |-> "v"]]
+    [] name = "Rm3:1a" -> [t |-> "Rm3", k |-> [id |-> "v"], q |-> [w |-> "absent", n |-> "v", l |-> "v"]]
+    [] name = "Rm3:2b" -> [t |-> "Rm3", k |-> [id |-> "v"], q |-> [w |-> "v", n |-> "bad", l |-> "v"]]
+    [] name = "Rm3:2n" -> [t |-> "Rm3", k |-> [id |-> "v"], q |-> [w |-> "v", n |-> "null", l |-> "v"]]
+    [] name = "Rm3:2a" -> [t |-> "Rm3", k |-> [id |-> "v"], q |-> [w |-> "v", n |-> "absent", l |-> "v"]]
+    [] name = "Rm3:3b" -> [t |-> "Rm3", k |-> [id |-> "v"], q |-> [w |-> "v", n |-> "v", l |-> "bad"]]
+    [] name = "Rm3:3n" -> [t |-> "Rm3", k |-> [id |-> "v"], q |-> [w |-> "v", n |-> "v", l |-> "null"]]
+    [] name = "Rm3:3a" -> [t |-> "Rm3", k |-> [id |-> "v"], q |-> [w |-> "v", n |-> "v", l |-> "absent"]]
+    [] name = "Rmnull" -> [t |-> "Rm", k |-> [id |-> "null"], q |-> [w |-> "v"]]
+AllKinds == {"S", "Smiss", "Snull", "Ka", "Kbc", "Kboth", "Kanull", "Kb",
+             "N", "Nbad", "Nmiss", "Mid", "Malt", "Mmiss", "U", "T0",
+             "R", "R:1b", "R:1n", "R:1a", "Rm", "Rm:1b", "Rm:1n", "Rm:1a",
+             "R2", "R2:1b", "R2:1n", "R2:1a", "R2:2b", "R2:2n", "R2:2a", "Rm2",
+             "Rm2:1b", "Rm2:1n", "Rm2:1a", "Rm2:2b", "Rm2:2n", "Rm2:2a", "R3", "R3:1b",
+             "R3:1n", "R3:1a", "R3:2b", "R3:2n", "R3:2a", "R3:3b", "R3:3n", "R3:3a",
+             "Rm3", "Rm3:1b", "Rm3:1n", "Rm3:1a", "Rm3:2b", "Rm3:2n", "Rm3:2a", "Rm3:3b",
+             "Rm3:3n", "Rm3:3a", "Rmnull"}
+ReqKinds == {kn \in AllKinds : Kind(kn).q # << >>}
 
 Null == [r |-> "", i |-> 0, w |-> 0]
 Ent(r, i, w) == [r |-> r, i |-> i, w |-> w]
@@ -160,6 +227,12 @@ FirstUsable(kd) == IF UsableIdx(kd) = {} THEN 0 ELSE Min(UsableIdx(kd))
 \* the key handed to resolver r for representation i: i's own values when it carries them all,
 \* otherwise an empty / null key (unmarshalling a missing or null value does not fail); 0 = empty key
 KeyIdx(r, kd, i) == IF \A f \in r.f : f \in DOMAIN kd.k /\ kd.k[f] = "v" THEN i ELSE 0
+
+\* can the values representation kd carries be coerced to its required fields?
+ReqOK(kd) == \A j \in 1..Len(Req(kd.t)) :
+               LET rq == Req(kd.t)[j] IN kd.q[rq.f] = "v" \/ (~rq.nn /\ kd.q[rq.f] \in {"null", "absent"})
+\* the index the echoed @requires values name (0: the representation carries none)
+WIdx(kd, i) == IF \E f \in DOMAIN kd.q : kd.q[f] = "v" THEN i ELSE 0
 
 N == Len(reps)
 Idx == 1..N
@@ -310,9 +383,16 @@ ZipStep(t) ==
             /\ errs' = errs + 1 /\ recs' = recs + 1
             /\ EndCall
             /\ UNCHANGED <<list, gz>>
+     ELSE IF gres[t][j] = "ent" /\ ~ReqOK(K(p.ix[j]))
+       THEN \* a required value of reps[j] does not unmarshal: `return err` - pinned: out of the whole
+            \* zip (the rest of the group is lost); repaired: this element stays null, the zip goes on
+            /\ errs' = errs + 1
+            /\ (IF FixBadReq THEN gz' = [gz EXCEPT ![t] = j + 1] /\ UNCHANGED <<gq, gst>>
+                          ELSE EndCall /\ UNCHANGED gz)
+            /\ UNCHANGED <<recs, list>>
      ELSE /\ list' = [list EXCEPT ![p.ix[j]] =
                         IF gres[t][j] = "nil" THEN Null
-                        ELSE Ent(p.r, p.ky[j], IF HasReq(t) THEN p.ix[j] ELSE 0)]
+                        ELSE Ent(p.r, p.ky[j], WIdx(K(p.ix[j]), p.ix[j]))]
           /\ gz' = [gz EXCEPT ![t] = j + 1]
           /\ UNCHANGED <<errs, recs, gq, gst>>
   /\ UNCHANGED <<reps, out, bout, pc, gres, est, order>>
@@ -348,8 +428,12 @@ EntityReturn(i) ==
                  THEN errs' = errs + 1 /\ recs' = recs + 1 /\ UNCHANGED list   \* nil dereference, recovered
                  ELSE UNCHANGED <<errs, recs, list>>                            \* a typed nil: null
           [] OTHER ->
-               /\ list' = [list EXCEPT ![i] = Ent(r.n, KeyIdx(r, K(i), i), IF HasReq(T(i)) THEN i ELSE 0)]
-               /\ UNCHANGED <<errs, recs>>
+               IF ~ReqOK(K(i))
+                 THEN \* a required value does not coerce: inline `return nil, err`, the explicit populator's
+                      \* error, or (computed_requires) the error of the non-null field's resolver
+                      errs' = errs + 1 /\ UNCHANGED <<recs, list>>
+                 ELSE /\ list' = [list EXCEPT ![i] = Ent(r.n, KeyIdx(r, K(i), i), WIdx(K(i), i))]
+                      /\ UNCHANGED <<errs, recs>>
   /\ est' = [est EXCEPT ![i] = "done"]
   /\ UNCHANGED <<reps, out, bout, pc, gst, gq, gres, gz>>
 
@@ -394,8 +478,15 @@ IsLast(i) == Part(i)[Len(Part(i))] = i
 
 MultiTN == {t \in TN : Multi(t)}
 
+\* the resolver delivers an entity for i, but i's required values cannot be coerced
+ReqFail(i) ==
+  /\ Eligible(i) # {} /\ ~ReqOK(K(i)) /\ out[i] # "nil"
+  /\ IF Multi(T(i)) THEN bout[MyRes(i)] \in {"ok", "long"} \/ (bout[MyRes(i)] = "short" /\ ~IsLast(i))
+                    ELSE out[i] = "ent"
+
 Failed(i) ==
   \/ Eligible(i) = {}                                      \* no typename, unknown type, no usable key
+  \/ ReqFail(i)                                            \* never an entity with a zero value
   \/ /\ Eligible(i) # {} /\ ~Multi(T(i)) /\ out[i] \in {"err", "panic"}
   \/ /\ Eligible(i) # {} /\ Multi(T(i))
      /\ \/ bout[MyRes(i)] \in {"err", "panic"}
@@ -407,7 +498,7 @@ ElemOK(i) ==
   IF ExpNull(i) THEN list[i] = Null
   ELSE /\ list[i].r \in Eligible(i)
        /\ list[i].i = i                                    \* resolved from i's own key
-       /\ list[i].w = (IF HasReq(T(i)) THEN i ELSE 0)      \* @requires from i's own representation
+       /\ list[i].w = WIdx(K(i), i)                       \* @requires from i's own representation
 
 \* failure units (each must be visible as an error of its own): every failing representation
 \* that is resolved on its own, every failing batch call, every batch type some of whose
@@ -417,6 +508,7 @@ FailUnits ==
   + Cardinality({r \in BatchRes : bout[r] \in {"err", "panic", "short"}
                                   /\ \E i \in Idx : Eligible(i) # {} /\ Multi(T(i)) /\ MyRes(i) = r})
   + Cardinality({t \in MultiTN : \E i \in Idx : T(i) = t /\ Eligible(i) = {}})
+  + Cardinality({i \in Idx : Multi(T(i)) /\ ReqFail(i)})      \* "an error for THAT element"
 \* situations in which an error beside intact elements is legitimate: a resolver that broke its
 \* contract without losing anything (too many entities; nil for a non-null single result)
 MayErr ==
@@ -437,7 +529,10 @@ DevOtherKey(t) == FU(G(t)[1]) # 0 /\ \E j \in Range(G(t)) : FU(j) # FU(G(t)[1])
 DevShort(t) == FU(G(t)[1]) # 0 /\ bout[PinnedRes(t)] = "short"
 DevNilReq(t) == /\ HasReq(t) /\ FU(G(t)[1]) # 0 /\ bout[PinnedRes(t)] \in {"ok", "short", "long"}
                 /\ \E j \in Range(G(t)) : out[j] = "nil" /\ FU(j) = FU(G(t)[1])
+DevBadReq(t) == /\ HasReq(t) /\ FU(G(t)[1]) # 0 /\ bout[PinnedRes(t)] \in {"ok", "short", "long"}
+                /\ \E j \in Range(G(t)) : ~ReqOK(K(j)) /\ out[j] # "nil" /\ FU(j) = FU(G(t)[1])
 Devs ==
+  (IF ~FixBadReq /\ \E t \in MultiTN : DevBadReq(t) THEN {"bad-requires"} ELSE {}) \cup
   (IF ~FixFirstRep /\ \E t \in MultiTN : DevFirstInvalid(t) THEN {"first-invalid"} ELSE {})
   \cup (IF ~FixFirstRep /\ \E t \in MultiTN : DevOtherKey(t) THEN {"other-key"} ELSE {})
   \cup (IF ~FixShort /\ \E t \in MultiTN : DevShort(t) THEN {"short"} ELSE {})
@@ -446,6 +541,7 @@ DevGroup(t) ==
   \/ ~FixFirstRep /\ (DevFirstInvalid(t) \/ DevOtherKey(t))
   \/ ~FixShort /\ DevShort(t)
   \/ ~FixNilReq /\ DevNilReq(t)
+  \/ ~FixBadReq /\ DevBadReq(t)
 
 \* the pinned tree violates the property in the named situations only
 CorrectModuloKnown ==
@@ -471,7 +567,7 @@ TypeOK ==
 \* (scenario, completion order) with what the model of the current code answers and what the
 \* property prescribes for each index.
 IdealAt(i) == [null |-> ExpNull(i), fail |-> Failed(i), rs |-> Eligible(i), i |-> i,
-               w |-> IF HasReq(T(i)) THEN i ELSE 0]
+               w |-> WIdx(K(i), i)]
 EmitDone ==
   pc = "done" =>
     PrintT(ToJson([reps |-> reps, out |-> out, bout |-> bout, order |-> order,
